@@ -31,7 +31,7 @@ def run(ctx: Any, prog: Program) -> None:
     ctx.assumptions += ['os.path.abspath normalises ".." components lexically and returns a path without trailing separator (except the filesystem root)']
     ctx.rule('C18.S1', 'the containment test cannot be satisfied by a sibling directory whose name extends the root name', floor=1)
     ctx.rule('C18.S2', 'every file-system call of RawFileSystem receives a path returned by _resolve_path', floor=5)
-    ctx.rule('C18.S3', '_resolve_path normalises with abspath(join(root, path)), raises RootEscapeError only when constrained; constraint on by default', floor=4)
+    ctx.rule('C18.S3', '_resolve_path normalises with abspath(join(root, path)), raises RootEscapeError only when constrained; constraint on by default', floor=5)
     ctx.rule('C18.S4', 'FileSystemChain touches member filesystems only through their public lookup/walk/open methods', floor=2)
 
     rp = raw.get('_resolve_path')
@@ -87,6 +87,9 @@ def run(ctx: Any, prog: Program) -> None:
         var = norm[0].targets[0].id if isinstance(norm[0].targets[0], ast.Name) else None
         rets = [r for r in walk_no_nested(rp) if isinstance(r, ast.Return)]
         ctx.check('C18.S3', all(dotted(r.value) == var for r in rets) and bool(rets), fs, rets[0] if rets else rp, 'the value returned must be the normalised path that was checked', func='RawFileSystem._resolve_path', text='returns checked value')
+        stores = [n for n in walk_no_nested(rp) if isinstance(n, (ast.Assign, ast.AugAssign, ast.AnnAssign)) and any(isinstance(t, ast.Name) and t.id == var and isinstance(t.ctx, ast.Store) for t in ast.walk(n))]
+        ctx.check('C18.S3', len(stores) == 1, fs, stores[-1] if stores else rp, f'`{var}` is assigned {len(stores)} times: the path handed to the OS must be exactly the normalised value the containment test saw '
+                  '(a rewrite after the test, e.g. turning backslashes into separators, re-introduces ".." components)', func='RawFileSystem._resolve_path', text='checked value not rewritten')
     dflt = {a.arg: d for a, d in zip(init.args.args[-len(init.args.defaults):], init.args.defaults)} if init.args.defaults else {}
     ok = isinstance(dflt.get('constrain_path'), ast.Constant) and dflt['constrain_path'].value is True and root_abs
     ctx.check('C18.S3', ok, fs, init, 'constrain_path must default to True and the root must be stored as an absolute path', func='RawFileSystem.__init__', text='constraint on by default, absolute root')
@@ -131,5 +134,6 @@ MUTANTS = [
     {'id': 'isfile_unresolved', 'file': 'filesys.py', 'find': "        if os.path.isfile(self._resolve_path(name)):\n            name = name.replace", 'replace': "        if os.path.isfile(os.path.join(self.path, name)):\n            name = name.replace", 'expect': 'C18.S2'},
     {'id': 'generic_error', 'file': 'filesys.py', 'find': "            raise RootEscapeError(self.path, path)\n        return abs_path", 'replace': "            raise FileNotFoundError(path)\n        return abs_path", 'expect': 'C18.S3'},
     {'id': 'unconstrained_default', 'file': 'filesys.py', 'find': "    def __init__(self, path: StringPath, constrain_path: bool = True) -> None:", 'replace': "    def __init__(self, path: StringPath, constrain_path: bool = False) -> None:", 'expect': 'C18.S3'},
+    {'id': 'rewrite_after_check', 'file': 'filesys.py', 'find': "            raise RootEscapeError(self.path, path)\n        return abs_path", 'replace': "            raise RootEscapeError(self.path, path)\n        abs_path = abs_path.replace('\\\\', '/')\n        return abs_path", 'expect': 'C18.S3'},
     {'id': 'returns_unnormalised', 'file': 'filesys.py', 'find': "            raise RootEscapeError(self.path, path)\n        return abs_path", 'replace': "            raise RootEscapeError(self.path, path)\n        return os.path.join(self.path, path)", 'expect': 'C18.S3'},
 ]
